@@ -326,5 +326,38 @@ def rule_h(ctx: Ctx) -> None:
     constraint_first(ctx, 'C03.h', which=('XsdAnyAttribute',))
 
 
-RULES = [rule_a, rule_b, rule_c, rule_d, rule_e, rule_f, rule_g, rule_h]
+def rule_i(ctx: Ctx) -> None:
+    """An element declaration keeps three things in step: its type, the attribute group and the content it validates with.  They are
+    set together by `_set_type`; a bare `self.type = …` (e.g. when a substitution-group member inherits the type of its head) leaves
+    the attribute group of the previous type - for a member declared without a type that is the lax wildcard of xs:anyType."""
+    rule = 'C03.i'
+    el = ctx.idx.cls('xmlschema.validators.elements.XsdElement')
+    n = 0
+    setter = el.methods.get('_set_type')
+    ok = setter is not None and all(any(isinstance(s_, ast.Assign) and text(s_.targets[0]) == t for s_ in ast.walk(setter.node)) or
+                                    any(isinstance(s_, ast.AnnAssign) and text(s_.target) == t for s_ in ast.walk(setter.node))
+                                    for t in ('self.type', 'self.attributes', 'self.content'))
+    ctx.ob(rule, 'XsdElement._set_type sets type, attributes and content together', setter.loc() if setter else f'{el.module.relpath}:{el.node.lineno}', ok, '',
+           key='_set_type|triple', nontrivial=False)
+    for c in ctx.idx.subclasses(el):
+        for m in [f for f in ctx.idx.functions.values() if f.cls is c and not isinstance(f.node, ast.Lambda)]:
+            for s_ in ast.walk(m.node):
+                tg = None
+                if isinstance(s_, ast.Assign):
+                    tg = [t for t in s_.targets if text(t) == 'self.type']
+                elif isinstance(s_, ast.AnnAssign) and text(s_.target) == 'self.type' and s_.value is not None:
+                    tg = [s_.target]
+                if not tg:
+                    continue
+                n += 1
+                ok = m.name == '_set_type'
+                ctx.ob(rule, f'{c.name}.{m.name}: the type of an element is changed through _set_type (attributes and content follow)', m.loc(s_), ok,
+                       '' if ok else f'`{text(s_)[:60]}` changes the type alone: the element goes on validating attributes (and content) with the group of its former type - a '
+                       'substitution-group member declared without a type accepts any attribute although its head is xs:int', key=f'{c.name}.{m.name}|type-store')
+    ctx.floor(rule, 'stores of the element type', n, 1)
+    ctx.explain('C03.i: who-may-write - inside XsdElement and its subclasses `self.type` is stored by _set_type only, which also '
+                'stores `self.attributes` and `self.content`.')
+
+
+RULES = [rule_a, rule_b, rule_c, rule_d, rule_e, rule_f, rule_g, rule_h, rule_i]
 THOROUGH = [thorough]
